@@ -146,7 +146,9 @@ static errcode_t stub_real_read_blk64(io_channel ch, unsigned long long block, i
 
 	if (count == -SUPERBLOCK_SIZE) {
 		PROP(ch->block_size == SUPERBLOCK_OFFSET && block == 1, "env: superblock is read at byte offset 1024");
+#ifndef VF_LIGHT_INDEX
 		memcpy(b, vf_sb, SUPERBLOCK_SIZE);
+#endif
 		vf_sb_reads++;
 		return 0;
 	}
@@ -267,13 +269,23 @@ static errcode_t stub_uf_write_blk64(io_channel ch, unsigned long long block, in
 	if (VF_BUF_IS_HDR(buf, count)) {
 		PROP(count == -(int) sizeof(struct undo_header), "env: the header is written with its exact size");
 		PROP(block == 0, "env: the header is written at the start of the undo file");
+#ifndef VF_LIGHT_INDEX
 		memcpy(vf_uf_hdr, b, sizeof(struct undo_header));
+#else
+		/* STUB: (capture queries) only num_keys and fs_block_size of the header are recorded, the superblock copy is not modelled: the index format is the `index` harness's subject */
+		for (i = 8; i < 16; i++)
+			vf_uf_hdr[i] = b[i];
+		for (i = 36; i < 40; i++)
+			vf_uf_hdr[i] = b[i];
+#endif
 		vf_uf_hdr_writes++;
 		return 0;
 	}
 	if (VF_BUF_IS_SB(buf, count)) {
 		PROP(count == -SUPERBLOCK_SIZE, "env: the superblock copy is written with its exact size");
+#ifndef VF_LIGHT_INDEX
 		memcpy(vf_uf_sb, b, SUPERBLOCK_SIZE);
+#endif
 		vf_uf_sb_blk = block;
 		vf_uf_sb_writes++;
 		return 0;
